@@ -558,7 +558,13 @@ func (st *StateDB) createObject(addr common.Address) (newobj, prev *stateObject)
 	}
 
 	st.setStateObject(newobj)
-	return newobj, prev
+	if prev != nil && !prev.deleted {
+		return newobj, prev
+	}
+	// prev was destroyed at the end of an earlier transaction (self-destruct or empty-account
+	// clearing); it is kept only so that a revert can restore it. Its balance was destroyed
+	// with it and must not be carried over into the new account.
+	return newobj, nil
 }
 
 // CreateAccount explicitly creates a state object. If a state object with the address
